@@ -509,7 +509,9 @@ def rand_tree(rnd, size):
         src = rnd.choice([["rep", 2, leaf], ["pool", [leaf, rand_leaf(rnd)]], ["valp", [[[1, 1], [2, 1]]] * 2]])
     else:
         src = rand_tree(rnd, size - 2)
-    return ["subst", rnd.choice([0, 1, 2, 3]), rnd.randint(0, 3), rand_tree(rnd, 1), rnd.random() < 0.5, rnd.choice([0, 1, 2, 2, 3]), src]
+    # the expansion roller is usually a leaf, sometimes a roller with sources of its own (its rolls carry source rolls)
+    e = rand_tree(rnd, 1) if rnd.random() < 0.65 else rnd.choice([["bin", 0, rand_leaf(rnd), ["val", rnd.randint(0, 2)]], ["un", 0, rand_leaf(rnd)], ["pool", [rand_leaf(rnd), rand_leaf(rnd)]], ["rep", 2, rand_leaf(rnd)]])
+    return ["subst", rnd.choice([0, 1, 2, 3]), rnd.randint(0, 3), e, rnd.random() < 0.5, rnd.choice([0, 1, 2, 2, 3]), src]
 
 
 def fix_selections(rnd, tree):
